@@ -121,6 +121,17 @@ def draw_settings(ch, label, legacy=True):
     return d
 
 
+def fix_keyshares(over):
+    """Keep the coupled keyShares setting valid after eccCurves/dhGroups
+    were restricted (keyShares must name enabled groups)."""
+    ks = over.get("keyShares", DEFAULTS["keyShares"])
+    enabled = eff(over, "eccCurves") + eff(over, "dhGroups")
+    good = [k for k in ks if k in enabled]
+    if good != list(ks):
+        over["keyShares"] = good
+    return over
+
+
 def eff(over, key):
     return over.get(key, DEFAULTS[key])
 
@@ -203,6 +214,15 @@ def surely_compatible(c, s, flavour, skey):
         if "aead" not in eff(c, "macNames") or \
                 "aead" not in eff(s, "macNames"):
             return False, "aead not in macNames"
+        # keyExchangeNames is documented for <= TLS 1.2 suites; whether a
+        # client that disables every (EC)DHE name still wants TLS 1.3 is not
+        # defined -> don't know
+        if not [k for k in eff(c, "keyExchangeNames")
+                if k.startswith(("ecdhe", "dhe"))]:
+            return False, "client disabled every (EC)DHE key exchange name"
+        if not [k for k in eff(s, "keyExchangeNames")
+                if k.startswith(("ecdhe", "dhe"))]:
+            return False, "server disabled every (EC)DHE key exchange name"
         if not common_curves:
             return False, "no common (main) curve"
         if skey == "rsa":
